@@ -60,7 +60,11 @@ class Scaler(Transformer):
 
     def _verify_feature_dims(self, X) -> None:
         """Data lacking a feature dimension must not be broadcast against the scaling parameters."""
-        missing_dims = set(self.weights_.dims) - set(X.dims)
+        # (user-defined weights may span only some of the feature dimensions)
+        fitted_dims = set()
+        for param in (self.mean_, self.std_, self.coslat_weights_, self.weights_):
+            fitted_dims |= set(param.dims)
+        missing_dims = fitted_dims - set(X.dims)
         if missing_dims:
             raise ValueError(
                 f"Cannot transform data. Dimensions {missing_dims} of the fitted data "
